@@ -1,1 +1,634 @@
-// stub
+//! Family `page`: C20 — every paginated list query of every contract returns every
+//! current item exactly once, in key order, whatever the page size; no page exceeds
+//! the requested limit or the maximum of 30; the default page size is 10.
+//!
+//! A case names one listing, a number of candidate items, runs of candidates (in key
+//! order) that are deleted / left out / expired, a page limit and a mid-list cursor.
+//! The state is built with real calls (direct driver; cw3-flex through cw-multi-test),
+//! then the listing is walked page by page and compared with the model key set and
+//! with the contract's point queries.
+use proptest::prelude::*;
+use serde::{Deserialize, Serialize};
+use serde_json::Value;
+use std::collections::BTreeSet;
+use vcore::amounts::pick;
+use vcore::{CaseCtx, Family, PropSpec, Tier, Violation};
+
+pub mod cw20l;
+pub mod cw4l;
+pub mod fixed;
+pub mod flex;
+pub mod ics20l;
+pub mod subkeys;
+
+pub const PROP: &str = "C20";
+pub const MAX_LIMIT: usize = 30;
+pub const DEFAULT_LIMIT: usize = 10;
+
+#[derive(Clone, Copy, Debug, Serialize, Deserialize, PartialEq, Eq, PartialOrd, Ord)]
+pub enum Listing {
+    Cw20Accounts,
+    Cw20OwnerAllowances,
+    Cw20SpenderAllowances,
+    SubkeysAllowances,
+    SubkeysPermissions,
+    FixedProposals,
+    FixedReverse,
+    FixedVotes,
+    FixedVoters,
+    FlexProposals,
+    FlexReverse,
+    FlexVotes,
+    FlexVoters,
+    GroupMembers,
+    StakeMembers,
+    Ics20Allowed,
+}
+
+pub const LISTINGS: [Listing; 16] = [
+    Listing::Cw20Accounts,
+    Listing::Cw20OwnerAllowances,
+    Listing::Cw20SpenderAllowances,
+    Listing::SubkeysAllowances,
+    Listing::SubkeysPermissions,
+    Listing::FixedProposals,
+    Listing::FixedReverse,
+    Listing::FixedVotes,
+    Listing::FixedVoters,
+    Listing::FlexProposals,
+    Listing::FlexReverse,
+    Listing::FlexVotes,
+    Listing::FlexVoters,
+    Listing::GroupMembers,
+    Listing::StakeMembers,
+    Listing::Ics20Allowed,
+];
+
+impl Listing {
+    pub fn name(&self) -> &'static str {
+        match self {
+            Listing::Cw20Accounts => "cw20_all_accounts",
+            Listing::Cw20OwnerAllowances => "cw20_all_allowances",
+            Listing::Cw20SpenderAllowances => "cw20_all_spender_allowances",
+            Listing::SubkeysAllowances => "subkeys_all_allowances",
+            Listing::SubkeysPermissions => "subkeys_all_permissions",
+            Listing::FixedProposals => "fixed_list_proposals",
+            Listing::FixedReverse => "fixed_reverse_proposals",
+            Listing::FixedVotes => "fixed_list_votes",
+            Listing::FixedVoters => "fixed_list_voters",
+            Listing::FlexProposals => "flex_list_proposals",
+            Listing::FlexReverse => "flex_reverse_proposals",
+            Listing::FlexVotes => "flex_list_votes",
+            Listing::FlexVoters => "flex_list_voters",
+            Listing::GroupMembers => "group_list_members",
+            Listing::StakeMembers => "stake_list_members",
+            Listing::Ics20Allowed => "ics20_list_allowed",
+        }
+    }
+    /// flag: walked with more than 30 current items
+    fn flag_gt30(&self) -> &'static str {
+        match self {
+            Listing::Cw20Accounts => "gt30_cw20_all_accounts",
+            Listing::Cw20OwnerAllowances => "gt30_cw20_all_allowances",
+            Listing::Cw20SpenderAllowances => "gt30_cw20_all_spender_allowances",
+            Listing::SubkeysAllowances => "gt30_subkeys_all_allowances",
+            Listing::SubkeysPermissions => "gt30_subkeys_all_permissions",
+            Listing::FixedProposals => "gt30_fixed_list_proposals",
+            Listing::FixedReverse => "gt30_fixed_reverse_proposals",
+            Listing::FixedVotes => "gt30_fixed_list_votes",
+            Listing::FixedVoters => "gt30_fixed_list_voters",
+            Listing::FlexProposals => "gt30_flex_list_proposals",
+            Listing::FlexReverse => "gt30_flex_reverse_proposals",
+            Listing::FlexVotes => "gt30_flex_list_votes",
+            Listing::FlexVoters => "gt30_flex_list_voters",
+            Listing::GroupMembers => "gt30_group_list_members",
+            Listing::StakeMembers => "gt30_stake_list_members",
+            Listing::Ics20Allowed => "gt30_ics20_list_allowed",
+        }
+    }
+    /// flag: non-trivial case (>= 11 items, >= 2 pages) of this listing
+    fn flag_nt(&self) -> &'static str {
+        match self {
+            Listing::Cw20Accounts => "nontrivial_cw20_all_accounts",
+            Listing::Cw20OwnerAllowances => "nontrivial_cw20_all_allowances",
+            Listing::Cw20SpenderAllowances => "nontrivial_cw20_all_spender_allowances",
+            Listing::SubkeysAllowances => "nontrivial_subkeys_all_allowances",
+            Listing::SubkeysPermissions => "nontrivial_subkeys_all_permissions",
+            Listing::FixedProposals => "nontrivial_fixed_list_proposals",
+            Listing::FixedReverse => "nontrivial_fixed_reverse_proposals",
+            Listing::FixedVotes => "nontrivial_fixed_list_votes",
+            Listing::FixedVoters => "nontrivial_fixed_list_voters",
+            Listing::FlexProposals => "nontrivial_flex_list_proposals",
+            Listing::FlexReverse => "nontrivial_flex_reverse_proposals",
+            Listing::FlexVotes => "nontrivial_flex_list_votes",
+            Listing::FlexVoters => "nontrivial_flex_list_voters",
+            Listing::GroupMembers => "nontrivial_group_list_members",
+            Listing::StakeMembers => "nontrivial_stake_list_members",
+            Listing::Ics20Allowed => "nontrivial_ics20_list_allowed",
+        }
+    }
+}
+
+/// A run of `len` consecutive candidates (consecutive in KEY order, starting at the
+/// candidate selected by `start`) that is taken out of the listing: deleted by a
+/// real call (member removed, allowance decreased to zero, stake unbonded), never
+/// entered (no vote cast), or — `expire` on the subkeys allowance listing — left in
+/// storage with an expiry that has passed when the listing is read.
+#[derive(Clone, Debug, Serialize, Deserialize, PartialEq)]
+pub struct Run {
+    pub start: u16,
+    pub len: u8,
+    pub expire: bool,
+}
+
+#[derive(Clone, Debug, Serialize, Deserialize, PartialEq)]
+pub struct Case {
+    pub listing: Listing,
+    /// number of candidate items created
+    pub n: u16,
+    pub deletions: Vec<Run>,
+    /// page limit of the main walk
+    pub limit: Option<u32>,
+    /// selects the item of the main walk whose key is the cursor of the second walk
+    pub mid_cursor: u16,
+    /// page limit of the second walk
+    pub mid_limit: Option<u32>,
+    /// varies values / configuration of the built state (weights, amounts, expiry kinds)
+    pub variant: u8,
+}
+
+// ---------------------------------------------------------------- strategies
+
+fn n_strategy(tier: Tier) -> BoxedStrategy<u16> {
+    let top: u16 = match tier {
+        Tier::Quick => 70,
+        Tier::Thorough => 130,
+    };
+    prop_oneof![
+        1 => Just(0u16),
+        1 => Just(1u16),
+        1 => Just(9u16),
+        2 => Just(10u16),
+        2 => Just(11u16),
+        2 => Just(29u16),
+        3 => Just(30u16),
+        3 => Just(31u16),
+        3 => Just(61u16),
+        9 => 32u16..=top,
+        1 => 2u16..32,
+    ]
+    .boxed()
+}
+
+fn limit_strategy() -> BoxedStrategy<Option<u32>> {
+    prop_oneof![
+        5 => Just(None),
+        1 => Just(Some(0u32)),
+        2 => Just(Some(1u32)),
+        2 => Just(Some(2u32)),
+        2 => Just(Some(3u32)),
+        2 => Just(Some(7u32)),
+        2 => Just(Some(10u32)),
+        2 => Just(Some(29u32)),
+        3 => Just(Some(30u32)),
+        3 => Just(Some(31u32)),
+        1 => Just(Some(100u32)),
+        1 => Just(Some(u32::MAX)),
+        2 => (1u32..45).prop_map(Some),
+        1 => any::<u32>().prop_map(Some),
+    ]
+    .boxed()
+}
+
+fn mid_limit_strategy() -> BoxedStrategy<Option<u32>> {
+    prop_oneof![
+        5 => Just(None),
+        2 => Just(Some(1u32)),
+        2 => Just(Some(2u32)),
+        2 => Just(Some(3u32)),
+        2 => Just(Some(7u32)),
+        2 => Just(Some(10u32)),
+        2 => Just(Some(29u32)),
+        3 => Just(Some(30u32)),
+        3 => Just(Some(31u32)),
+        1 => Just(Some(100u32)),
+        1 => Just(Some(u32::MAX)),
+        2 => (1u32..45).prop_map(Some),
+    ]
+    .boxed()
+}
+
+fn run_strategy() -> BoxedStrategy<Run> {
+    (
+        any::<u16>(),
+        prop_oneof![6 => 1u8..4, 2 => 4u8..12, 3 => 11u8..36, 1 => 31u8..70],
+        any::<bool>(),
+    )
+        .prop_map(|(start, len, expire)| Run { start, len, expire })
+        .boxed()
+}
+
+pub fn case_strategy(_prop: &str, tier: Tier) -> BoxedStrategy<Case> {
+    (
+        (0usize..LISTINGS.len()).prop_map(|i| LISTINGS[i]),
+        n_strategy(tier),
+        proptest::collection::vec(run_strategy(), 0..4),
+        limit_strategy(),
+        any::<u16>(),
+        mid_limit_strategy(),
+        any::<u8>(),
+    )
+        .prop_map(|(listing, n, deletions, limit, mid_cursor, mid_limit, variant)| Case {
+            listing,
+            n,
+            deletions,
+            limit,
+            mid_cursor,
+            mid_limit,
+            variant,
+        })
+        .boxed()
+}
+
+// ---------------------------------------------------------------- model / target
+
+#[derive(Clone, Debug, PartialEq, Eq, PartialOrd, Ord)]
+pub enum Key {
+    Addr(String),
+    Id(u64),
+}
+
+impl std::fmt::Display for Key {
+    fn fmt(&self, f: &mut std::fmt::Formatter<'_>) -> std::fmt::Result {
+        match self {
+            Key::Addr(a) => write!(f, "{a}"),
+            Key::Id(i) => write!(f, "#{i}"),
+        }
+    }
+}
+
+#[derive(Clone, Debug, PartialEq)]
+pub struct Item {
+    pub key: Key,
+    /// the payload of the list entry, in the same JSON shape as `Target::point` returns
+    pub value: Value,
+}
+
+/// The listing under test on a built state.
+pub trait Target {
+    /// one page of the list query: cursor (start_after / start_before) and limit as given
+    fn page(&self, cursor: Option<&Key>, limit: Option<u32>) -> Result<Vec<Item>, String>;
+    /// the contract's point query for one key; `Ok(None)` = the point query says "no such item"
+    fn point(&self, key: &Key) -> Result<Option<Value>, String>;
+}
+
+pub struct Built {
+    pub target: Box<dyn Target>,
+    /// keys that are current items by the model
+    pub required: BTreeSet<Key>,
+    /// keys whose status as a "current item" the statement leaves open
+    /// (cw20 accounts whose balance is zero): may be listed or not, but consistently
+    pub optional: BTreeSet<Key>,
+    pub descending: bool,
+    /// number of entries that exist in storage but are hidden because they expired
+    pub hidden_expired: usize,
+}
+
+fn viol(sig: &str, msg: String) -> Violation {
+    Violation::new(PROP, &format!("{PROP}/{sig}"), msg)
+}
+
+/// `removed[s]` for the candidates in key order: None = stays, Some(expire)
+pub fn removal_plan(n: usize, runs: &[Run]) -> Vec<Option<bool>> {
+    let mut out = vec![None; n];
+    if n == 0 {
+        return out;
+    }
+    for r in runs {
+        let s = pick(r.start, n);
+        for slot in out.iter_mut().skip(s).take(r.len as usize) {
+            *slot = Some(r.expire);
+        }
+    }
+    out
+}
+
+fn cap_of(limit: Option<u32>) -> usize {
+    (limit.map(|l| l as usize).unwrap_or(DEFAULT_LIMIT)).min(MAX_LIMIT)
+}
+
+struct Walk {
+    items: Vec<Item>,
+    page_lens: Vec<usize>,
+}
+
+/// Walk the listing from `start` with `limit` (> 0) until an empty page.
+fn walk(b: &Built, name: &str, start: Option<&Key>, limit: Option<u32>, bound: usize) -> Result<Walk, Violation> {
+    let cap = cap_of(limit);
+    let mut items: Vec<Item> = Vec::new();
+    let mut page_lens = Vec::new();
+    let mut cursor: Option<Key> = start.cloned();
+    loop {
+        let page = b
+            .target
+            .page(cursor.as_ref(), limit)
+            .map_err(|e| viol("list-query-failed", format!("{name}: list query with cursor {:?} limit {:?} failed: {e}", cursor.as_ref().map(|k| k.to_string()), limit)))?;
+        if page.len() > cap {
+            return Err(viol(
+                "page-exceeds-limit",
+                format!("{name}: page of {} items returned for limit {:?} (allowed at most {cap}), cursor {:?}", page.len(), limit, cursor.as_ref().map(|k| k.to_string())),
+            ));
+        }
+        if page.is_empty() {
+            break;
+        }
+        page_lens.push(page.len());
+        for it in page {
+            if let Some(prev) = cursor.as_ref() {
+                let forward = if b.descending { it.key < *prev } else { it.key > *prev };
+                if !forward {
+                    return Err(viol(
+                        "order-or-duplicate",
+                        format!("{name}: item {} returned after {} (limit {:?}): not strictly {} in key order, i.e. repeated or out of order", it.key, prev, limit, if b.descending { "descending" } else { "ascending" }),
+                    ));
+                }
+            }
+            cursor = Some(it.key.clone());
+            items.push(it);
+        }
+        if items.len() > bound {
+            return Err(viol("invented-item", format!("{name}: walk returned more than {bound} items although at most {bound} can exist")));
+        }
+    }
+    Ok(Walk { items, page_lens })
+}
+
+pub fn run_case(prop: &str, case: &Case, ctx: &mut CaseCtx) -> Result<(), Violation> {
+    if prop != PROP {
+        panic!("family page serves only C20, not {prop}");
+    }
+    let name = case.listing.name();
+    ctx.count(&format!("listing_{name}"));
+    let b: Built = match case.listing {
+        Listing::Cw20Accounts | Listing::Cw20OwnerAllowances | Listing::Cw20SpenderAllowances => cw20l::build(case, ctx),
+        Listing::SubkeysAllowances | Listing::SubkeysPermissions => subkeys::build(case, ctx),
+        Listing::FixedProposals | Listing::FixedReverse | Listing::FixedVotes | Listing::FixedVoters => fixed::build(case, ctx),
+        Listing::FlexProposals | Listing::FlexReverse | Listing::FlexVotes | Listing::FlexVoters => flex::build(case, ctx),
+        Listing::GroupMembers | Listing::StakeMembers => cw4l::build(case, ctx),
+        Listing::Ics20Allowed => ics20l::build(case, ctx),
+    };
+    let bound = b.required.len() + b.optional.len();
+    let n_cur = b.required.len();
+
+    // ---- limit 0: "no page exceeds the requested limit" => the page is empty; no walk
+    if case.limit == Some(0) {
+        ctx.count("limit_zero");
+        let page = b.target.page(None, Some(0)).map_err(|e| viol("list-query-failed", format!("{name}: list query with limit 0 failed: {e}")))?;
+        if !page.is_empty() {
+            return Err(viol("page-exceeds-limit", format!("{name}: limit 0 returned {} items", page.len())));
+        }
+        return Ok(());
+    }
+
+    // ---- main walk
+    let w = walk(&b, name, None, case.limit, bound)?;
+    ctx.add("pages", w.page_lens.len() as u64);
+    ctx.add("items_listed", w.items.len() as u64);
+
+    let listed: BTreeSet<Key> = w.items.iter().map(|i| i.key.clone()).collect();
+    // nothing invented
+    for it in &w.items {
+        if !b.required.contains(&it.key) && !b.optional.contains(&it.key) {
+            return Err(viol("invented-item", format!("{name}: listing returned {} which is not a current item (limit {:?})", it.key, case.limit)));
+        }
+    }
+    // nothing missing
+    let missing: Vec<&Key> = b.required.iter().filter(|k| !listed.contains(*k)).collect();
+    if !missing.is_empty() {
+        let msg = format!(
+            "{name}: walking with limit {:?} until the first empty page returned {} of {} current items; first missing: {} (page sizes {:?}, {} expired entries hidden)",
+            case.limit,
+            w.items.len(),
+            n_cur,
+            missing[0],
+            w.page_lens,
+            b.hidden_expired
+        );
+        if case.listing == Listing::SubkeysAllowances && b.hidden_expired > 0 {
+            let sig = "C20/subkeys-expired-run-hides-items";
+            if ctx.tolerate(sig) {
+                ctx.count("known_subkeys_expired_run");
+                return Ok(());
+            }
+            return Err(Violation::new(PROP, sig, msg));
+        }
+        return Err(viol("missing-item", msg));
+    }
+    // values equal the point queries
+    for it in &w.items {
+        let p = b.target.point(&it.key).map_err(|e| viol("point-query-failed", format!("{name}: point query for listed item {} failed: {e}", it.key)))?;
+        match p {
+            None => {
+                if b.required.contains(&it.key) {
+                    return Err(viol("value-mismatch", format!("{name}: point query knows nothing about listed current item {}", it.key)));
+                }
+            }
+            Some(v) => {
+                if v != it.value {
+                    return Err(viol("value-mismatch", format!("{name}: list entry for {} is {} but the point query says {}", it.key, it.value, v)));
+                }
+            }
+        }
+    }
+    ctx.add("optional_listed", listed.iter().filter(|k| b.optional.contains(*k)).count() as u64);
+    ctx.add("optional_hidden", b.optional.iter().filter(|k| !listed.contains(*k)).count() as u64);
+
+    // default page size
+    if case.limit.is_none() {
+        let total = w.items.len();
+        let mut seen = 0usize;
+        if total > 0 && w.page_lens.is_empty() {
+            unreachable!();
+        }
+        for (i, l) in w.page_lens.iter().enumerate() {
+            let want = DEFAULT_LIMIT.min(total - seen);
+            if *l != want {
+                return Err(viol("default-page-size", format!("{name}: without a limit page {} has {} items, expected {} ({} items in total)", i + 1, l, want, total)));
+            }
+            seen += l;
+        }
+        ctx.count("walk_default_limit");
+    } else {
+        let cap = cap_of(case.limit);
+        let short = w.page_lens.iter().rev().skip(1).filter(|l| **l < cap).count();
+        ctx.add("short_nonfinal_pages", short as u64);
+    }
+
+    // ---- the same list whatever the page size: reference walk with the maximum page
+    if case.limit != Some(MAX_LIMIT as u32) {
+        let r = walk(&b, name, None, Some(MAX_LIMIT as u32), bound)?;
+        if r.items != w.items {
+            let at = r.items.iter().zip(w.items.iter()).position(|(a, b)| a != b).unwrap_or(r.items.len().min(w.items.len()));
+            return Err(viol(
+                "page-size-dependent",
+                format!("{name}: walk with limit {:?} returned {} items, walk with limit 30 returned {}; first difference at position {at}", case.limit, w.items.len(), r.items.len()),
+            ));
+        }
+    }
+
+    // ---- second walk from a mid-list cursor: exactly the suffix
+    if !w.items.is_empty() {
+        let k = pick(case.mid_cursor, w.items.len());
+        let cur = w.items[k].key.clone();
+        let m = walk(&b, name, Some(&cur), case.mid_limit, bound)?;
+        let want = &w.items[k + 1..];
+        if m.items.as_slice() != want {
+            return Err(viol(
+                "suffix-mismatch",
+                format!(
+                    "{name}: walk from cursor {} (position {k} of {}) with limit {:?} returned {} items [{}..], expected the {} items after the cursor [{}..]",
+                    cur,
+                    w.items.len(),
+                    case.mid_limit,
+                    m.items.len(),
+                    m.items.first().map(|i| i.key.to_string()).unwrap_or_default(),
+                    want.len(),
+                    want.first().map(|i| i.key.to_string()).unwrap_or_default()
+                ),
+            ));
+        }
+        if case.mid_limit.is_none() {
+            let mut seen = 0usize;
+            for (i, l) in m.page_lens.iter().enumerate() {
+                let wantl = DEFAULT_LIMIT.min(want.len() - seen);
+                if *l != wantl {
+                    return Err(viol("default-page-size", format!("{name}: without a limit page {} after cursor {} has {} items, expected {}", i + 1, cur, l, wantl)));
+                }
+                seen += l;
+            }
+        }
+        ctx.count("mid_walks");
+        if k + 1 == w.items.len() {
+            ctx.count("mid_cursor_is_last");
+        }
+    }
+
+    // ---- statistics / non-triviality
+    let cap = cap_of(case.limit);
+    if n_cur > MAX_LIMIT {
+        ctx.flag(case.listing.flag_gt30());
+        ctx.flag("n_gt_30");
+    }
+    if n_cur == MAX_LIMIT || n_cur == MAX_LIMIT + 1 || n_cur == DEFAULT_LIMIT || n_cur == DEFAULT_LIMIT + 1 {
+        ctx.flag("n_at_page_boundary");
+    }
+    if n_cur > 0 && n_cur % cap == 0 {
+        ctx.flag("last_page_exactly_full");
+    }
+    if n_cur < case.n as usize {
+        ctx.flag("with_removed_items");
+    }
+    if b.hidden_expired > 0 {
+        ctx.flag("with_hidden_expired");
+        if b.hidden_expired > cap {
+            ctx.flag("hidden_expired_more_than_a_page");
+        }
+    }
+    if case.limit.map(|l| l as usize > MAX_LIMIT).unwrap_or(false) && n_cur > MAX_LIMIT {
+        ctx.flag("limit_above_max_with_more_than_30_items");
+    }
+    if n_cur >= 11 && cap < n_cur {
+        ctx.nontrivial = true;
+        ctx.flag(case.listing.flag_nt());
+    }
+    Ok(())
+}
+
+// ---------------------------------------------------------------- helpers shared by the builders
+
+/// `n` distinct valid addresses in KEY order (byte order of the bech32 string).
+pub fn sorted_addrs(api: &cosmwasm_std::testing::MockApi, tag: &str, n: usize) -> Vec<cosmwasm_std::Addr> {
+    let mut v: Vec<cosmwasm_std::Addr> = (0..n).map(|i| api.addr_make(&format!("{tag}{i}"))).collect();
+    v.sort_by(|a, b| a.as_str().as_bytes().cmp(b.as_str().as_bytes()));
+    v.dedup();
+    assert_eq!(v.len(), n, "address pool collision");
+    v
+}
+
+/// A permutation of 0..n derived from `variant`, so that creation order differs from key order.
+pub fn creation_order(n: usize, variant: u8) -> Vec<usize> {
+    let mut v: Vec<usize> = (0..n).collect();
+    match variant % 3 {
+        0 => {}
+        1 => v.reverse(),
+        _ => {
+            // interleave halves
+            let (a, b) = v.split_at(n / 2);
+            let mut out = Vec::with_capacity(n);
+            let mut ia = a.iter();
+            let mut ib = b.iter().rev();
+            loop {
+                match (ia.next(), ib.next()) {
+                    (None, None) => break,
+                    (x, y) => {
+                        if let Some(x) = x {
+                            out.push(*x);
+                        }
+                        if let Some(y) = y {
+                            out.push(*y);
+                        }
+                    }
+                }
+            }
+            v = out;
+        }
+    }
+    v
+}
+
+pub fn to_value<T: Serialize>(t: &T) -> Value {
+    serde_json::to_value(t).expect("serialize")
+}
+
+/// setup calls succeed by construction; anything else is a harness error (inconclusive)
+pub fn must<T>(r: Result<T, String>, what: &str) -> T {
+    match r {
+        Ok(t) => t,
+        Err(e) => panic!("setup step failed: {what}: {e}"),
+    }
+}
+
+// ---------------------------------------------------------------- family
+
+pub struct PageFamily;
+
+const ASSUME: &[&str] = &[
+    "transactions are atomic: a failed or panicking call leaves no state (direct driver restores the store; cw-multi-test commits only on success)",
+    "MockApi bech32 address validation stands for the chain's; key order of address-keyed listings is the byte order of the address string",
+    "cosmwasm-std, cw-storage-plus, cw-utils, cw-controllers, cw-multi-test are trusted as execution substrate",
+    "a cw20 account whose balance is zero may or may not count as a current item (listed or hidden, but the same in every walk); an expired cw1-subkeys allowance is not a current item",
+    "cursors are keys returned by a previous page (the statement does not cover arbitrary cursors)",
+];
+
+impl Family for PageFamily {
+    type Case = Case;
+    fn name(&self) -> &'static str {
+        "page"
+    }
+    fn props(&self) -> Vec<PropSpec> {
+        vec![PropSpec {
+            id: "C20",
+            quick_cases: 4800,
+            thorough_cases: 12_000,
+            floor: 500,
+            rule: "case = one of 16 listings (cw20 AllAccounts/AllAllowances/AllSpenderAllowances, subkeys AllAllowances/AllPermissions, cw3-fixed and cw3-flex ListProposals/ReverseProposals/ListVotes/ListVoters, cw4-group and cw4-stake ListMembers, ics20 ListAllowed), n candidates from {0,1,9,10,11,29,30,31,32..70 (thorough ..130)}, up to 3 runs of key-adjacent candidates deleted/left out/expired (run length 1..69), limit from {absent,0,1,2,3,7,10,29,30,31,100,u32::MAX,1..44,any}, a mid-list cursor and a second limit; state built by real calls, walked from no cursor until an empty page, compared with the model key set and the point queries; reference walk with limit 30; second walk from the mid cursor must be the exact suffix. Non-trivial: >= 11 current items and effective page size < number of items (>= 2 pages); cases_with_flag gt30_<listing> shows each listing walked with more than 30 items.",
+            assumptions: ASSUME,
+        }]
+    }
+    fn strategy(&self, prop: &str, tier: Tier) -> BoxedStrategy<Case> {
+        case_strategy(prop, tier)
+    }
+    fn run(&self, prop: &str, case: &Case, ctx: &mut CaseCtx) -> Result<(), Violation> {
+        run_case(prop, case, ctx)
+    }
+}
